@@ -2,27 +2,37 @@ from common import COMMON_TB
 
 CONFIG = {
     "lean_modules": ["SA.Props.C04"],
-    "level_text": "Decision logic proved in Lean on the handshake model of C06: C04_mustSecure_sound (for every peer script, "
-                  "carrier, TLS behaviour: a Connect with mustSecure only returns a connection that reports secure; secure only "
-                  "from an encrypted carrier or an established StartTLS handshake), C04_open_stores_only_secure (Upstreams.open "
+    "level_text": "Decision logic proved in Lean on the handshake model of C06: C04_connect_sound (for every peer script, "
+                  "carrier flag, TLS behaviour: a Connect with mustSecure only returns a connection that reports secure; secure only "
+                  "from the carrier flag or an established StartTLS handshake), C04_secure_args_honest + C04_mustSecure_sound (the "
+                  "same per upstream kind over the `secure` argument that kind REALLY passes to NewClientConnection, regenerated "
+                  "and evaluated: secure only when the carrier really is TLS or StartTLS was established), "
+                  "C04_grid_never_plaintext (complete end-to-end grid scheme x server certificate x require-security x "
+                  "certificate verdict, kernel-evaluated), C04_open_stores_only_secure (Upstreams.open "
                   "keeps only a connection whose Connect succeeded), C04_guard_shape (regenerated: the guard is present at all "
                   "five Connect sites between NewClientConnection and the assignment of the connection), C04_client_asks_iff, "
                   "C04_security_header_iff, C04_server_offers_iff, C04_server_secure_sound, C04_starttls_all_or_nothing and "
                   "C04_secure_flag_agrees (honest pair; complete finite grid evaluated by the kernel on the rendered messages). "
                   "Tied to the code by hs-client (real NewClientConnection and the real upstream.InputOutput.Connect with "
-                  "mustSecure) and hs-server against scripted peers and a real in-memory TLS peer.",
+                  "mustSecure) and hs-server against scripted peers and a real in-memory TLS peer, and by seckinds: the real "
+                  "Connect of all five upstream kinds (tcp, tcp+tls, ws, wss, udp/KCP, stdio, stdio+tls, dns) through the real "
+                  "client command against the real server of that kind with a recorder on the carrier.",
     "level_note": "Partial on TLS: crypto/tls and x509 are a parameter (`tls left`), i.e. 'payload never appears in clear on a "
                   "secure session' is reduced to the crypto/tls contract; the harness checks it observationally (a marker "
-                  "written by the code must not occur in the recorded carrier bytes). The guard is exercised on the real code "
-                  "through InputOutput.Connect only; for the other four Connect functions its presence and position are a "
-                  "regenerated shape fact. '+tls endpoints never accept plaintext' (listener tables) is C18's territory and is "
+                  "written by the application must not occur in the recorded carrier bytes). Scripted (misbehaving) peers reach "
+                  "the guard through InputOutput.Connect only; the other four Connect functions are driven end to end with honest "
+                  "servers (seckinds), their guard's presence/position and their `secure` argument are regenerated facts. The "
+                  "server end's Secure() is not observable on a real server: both-ends-secure is the client's report + the echo "
+                  "through the server + the recorded carrier. The udp shared-secret (AES) carrier cannot be driven (both ends "
+                  "fail with an invalid key size); its flag is covered by the regenerated argument class only. '+tls endpoints never accept plaintext' (listener tables) is C18's territory and is "
                   "not restated here. A peer that strips the capability downgrades a client that does not require security "
                   "(documented opportunistic mode, outside the statement; with mustSecure it is covered).",
     "technique": "Lean 4 proof (case analysis over the decision trees, induction over the endpoint list, kernel evaluation of "
                  "the complete honest-pair grid) + regenerated guard-shape facts + differential correspondence with scripted and "
                  "real-TLS peers",
     "components": [{"name": "hs-client", "timeout": {"quick": 300, "thorough": 1500}},
-                   {"name": "hs-server", "timeout": {"quick": 300, "thorough": 1500}}],
+                   {"name": "hs-server", "timeout": {"quick": 300, "thorough": 1500}},
+                   {"name": "seckinds", "timeout": {"quick": 600, "thorough": 1500}}],
     "rule": "hs-client: grid carrier secure? x client TLS manager {none, skip-verify, verifying, verifying wrong host, failing} x "
             "mustSecure {direct call, false, true via InputOutput.Connect} x 14 capability forms (omitted, empty, case variants, "
             "U+017F, duplicated, listed, near misses) x peer after 101 {EOF, real TLS server, plaintext}; duplicated capability "
@@ -31,12 +41,20 @@ CONFIG = {
             "client, plaintext} with and without bytes before the TLS hello. Monitors: with mustSecure no usable non-secure "
             "connection and no write beyond the two handshake requests after a failure; a session reports secure only with an "
             "encrypted carrier or TLS; StartTLS asked and supported => TLS or no session; marker never in clear. "
+            "seckinds: complete grid 7 schemes (tcp, tcp+tls, ws, wss, udp, stdio, stdio+tls) x server certificate x "
+            "require-security x insecure flag x client CA (TLS schemes only with certificate), dns 4 cells (thorough: 16 + 40 "
+            "random repeats); monitor = the property: require-security => no session unless client secure, TLS-protected "
+            "(StartTLS or TLS carrier), echo through the server, marker not on the recorded carrier; StartTLS offered on an "
+            "unencrypted carrier => tls+secure or no session; reported secure => marker never on the carrier. "
             "non-trivial = session established; distinct = distinct op line",
     "trusted_base": COMMON_TB + [
         "model SA.Model.Security + SA.Model.Handshake hand-written; tied per op (outcome class, security tech, secure flag, "
         "requests written, leftover / application exchange)",
         "crypto/tls, crypto/x509: hypothesis (parameter of every theorem), exercised with a self-signed in-memory pair",
-        "shape extraction of the mustSecure guard (position-based, go/ast)"],
+        "shape extraction of the mustSecure guard (position-based, go/ast) and classification of the `secure` argument of "
+        "NewClientConnection per upstream kind (go/ast; unrecognised = pessimistic)",
+        "x509 hypothesis table of the seckinds model: the rig certificate (localhost, 127.0.0.1) is accepted iff insecure "
+        "flag, or CA present and the kind passes a host on the certificate (stdio passes none, dns the tunnel domain)"],
     "assumptions": ["TLS handshake success is reported consistently by both ends (honest-pair theorems)",
                     "a TLS handshake fails when anything but a TLS hello is next on the carrier"],
 }
